@@ -14,6 +14,7 @@ package main
 
 import (
 	"fmt"
+	"os"
 	"runtime/debug"
 	"strings"
 	"time"
@@ -28,6 +29,7 @@ type cfgDef struct {
 	downFirst [][2]int         // links that are down in the initial state (late joiners)
 	prefixes  map[int][]string // router -> prefixes it may announce / withdraw
 	faces     [][2]int         // directed (i,j): i may hear j on an alternate face
+	passive   [][2]int         // directed (i,j): i hears j's regular sync Interests under the passive prefix
 	faults    [][2]int         // links that may fail and come back
 	restarts  []int            // routers that may stop and restart
 	burstAt   int              // router that may publish a burst of operations on /p3 (-1: none)
@@ -40,28 +42,28 @@ type cfgDef struct {
 
 var defs = map[string]cfgDef{
 	// installer: line r0 - r1 - r2, /p1 multi-homed at r0 and r2, /p2 at r2; r1 may hear r2 on another face
-	"mirror-line3": {graph: "n3:01-12", prefixes: map[int][]string{0: {"/p1"}, 2: {"/p1", "/p2"}}, faces: [][2]int{{1, 2}},
-		faults: [][2]int{{1, 2}}, burstAt: -1, exchange: true, dq: 5, dt: 7, dev: 2},
+	"mirror-line3": {graph: "n3:01-12", prefixes: map[int][]string{0: {"/p1"}, 2: {"/p1", "/p2"}}, faces: [][2]int{{1, 2}}, passive: [][2]int{{1, 2}},
+		faults: [][2]int{{1, 2}}, burstAt: -1, exchange: true, dq: 6, dt: 8, dev: 2},
 	// installer: triangle, /p1 at r1 and r2: r0 has equal-cost exits, second-best hops, cost changes on faults
 	"mirror-tri": {graph: "n3:01-02-12", prefixes: map[int][]string{1: {"/p1"}, 2: {"/p1"}}, faces: [][2]int{{0, 1}},
-		faults: [][2]int{{0, 1}, {1, 2}}, burstAt: -1, exchange: true, dq: 5, dt: 7, dev: 2},
+		faults: [][2]int{{0, 1}, {1, 2}}, burstAt: -1, exchange: true, dq: 6, dt: 8, dev: 2},
 	// installer: square, r2 opposite of r0 (two equal-cost faces), fault and router restart
 	"mirror-square": {graph: "n4:01-03-12-23", prefixes: map[int][]string{2: {"/p1"}, 1: {"/p1"}}, faults: [][2]int{{0, 1}, {2, 3}},
-		restarts: []int{2}, burstAt: -1, exchange: true, dq: 4, dt: 6, dev: 2},
+		restarts: []int{2}, burstAt: -1, exchange: true, dq: 5, dt: 7, dev: 2},
 	// log: publisher r1, peer r0; bursts across the snapshot threshold; failing fetches; publisher restart
 	"log-pair": {graph: "n2:01", prefixes: map[int][]string{1: {"/p1", "/p2"}}, burstAt: 1, bursts: []int{98, 99, 100, 101},
-		restarts: []int{1}, failFetch: true, dq: 6, dt: 8, dev: 2},
+		restarts: []int{1}, failFetch: true, dq: 7, dt: 9, dev: 2},
 	// log: publisher r0, peer r1, late joiner r2 (link 1-2 down at first)
 	"log-join": {graph: "n3:01-12", downFirst: [][2]int{{1, 2}}, prefixes: map[int][]string{0: {"/p1", "/p2"}}, faults: [][2]int{{1, 2}},
-		burstAt: 0, bursts: []int{101}, exchange: true, dq: 6, dt: 8, dev: 2},
+		burstAt: 0, bursts: []int{101}, exchange: true, dq: 7, dt: 9, dev: 2},
 }
 
 type sys struct {
-	name      string
-	d         cfgDef
-	g         dvsim.Graph
-	m         *dvsim.Machine
-	opsCache  map[string][]explore.Op
+	name     string
+	d        cfgDef
+	g        dvsim.Graph
+	m        *dvsim.Machine
+	opsCache map[string][]explore.Op
 }
 
 func (y *sys) initSim(s *dvsim.Sim) {
@@ -71,6 +73,9 @@ func (y *sys) initSim(s *dvsim.Sim) {
 		}
 	}
 	s.Universe["/p3"] = true
+	for _, e := range y.d.passive {
+		s.Passive[e] = true
+	}
 	for _, e := range y.d.downFirst {
 		s.LinkDown(e[0], e[1])
 	}
@@ -91,10 +96,7 @@ func (y *sys) initSim(s *dvsim.Sim) {
 	if q, why := s.RoutingQuiescent(); !q {
 		report.Fatal("C19 %s: initial convergence failed: %s", y.name, why)
 	}
-	s.CheckProgress(50)
-	if ok, why := s.PfxSettled(); !ok {
-		report.Fatal("C19 %s: initial prefix sync failed: %s", y.name, why)
-	}
+	s.CheckProgress(50) // a failure here is reported by the closure check of the first transitions
 }
 
 func (y *sys) New() any { return y.m.New() }
@@ -107,7 +109,7 @@ func (y *sys) Ops(i any) []explore.Op {
 	}
 	ops := y.ops(l.Sim())
 	l.Checkpoint()
-	if len(y.opsCache) > 200000 {
+	if len(y.opsCache) > 50000 {
 		y.opsCache = map[string][]explore.Op{}
 	}
 	y.opsCache[key] = ops
@@ -116,7 +118,9 @@ func (y *sys) Ops(i any) []explore.Op {
 
 func (y *sys) ops(s *dvsim.Sim) []explore.Op {
 	var ops []explore.Op
-	add := func(dev bool, f string, a ...any) { ops = append(ops, explore.Op{Name: fmt.Sprintf(f, a...), Dev: dev}) }
+	add := func(dev bool, f string, a ...any) {
+		ops = append(ops, explore.Op{Name: fmt.Sprintf(f, a...), Dev: dev})
+	}
 	n := s.G.N
 	for r := 0; r < n; r++ {
 		if !s.Nodes[r].Up {
@@ -133,14 +137,18 @@ func (y *sys) ops(s *dvsim.Sim) []explore.Op {
 		}
 	}
 	for a := 0; a < n; a++ {
-		if s.Nodes[a].Up && len(s.Parked(a, dvsim.KPfxData)) > 0 {
-			add(false, "Fs(%d)", a)
+		if s.Nodes[a].Up {
+			for _, d := range s.PfxTargets(a) {
+				add(false, "Fs(%d<%d)", a, d)
+			}
 		}
 	}
 	if y.d.exchange {
+		sn := s.Snap()
 		for a := 0; a < n; a++ {
 			for b := 0; b < n; b++ {
-				if a != b && s.LinkLive(a, b) {
+				// an exchange that brings nothing new maps the state to itself: not generated
+				if a != b && s.LinkLive(a, b) && !sn.Fresh(a, b) {
 					add(false, "X(%d<%d)", a, b)
 				}
 			}
@@ -154,6 +162,9 @@ func (y *sys) ops(s *dvsim.Sim) []explore.Op {
 				add(false, "Fb(%d<%d)", f[0], f[1])
 			}
 			add(false, "Fp(%d<%d)", f[0], f[1])
+			if s.Passive[f] {
+				add(false, "Fx(%d<%d)", f[0], f[1])
+			}
 		}
 	}
 	for a := 0; a < n; a++ {
@@ -180,8 +191,10 @@ func (y *sys) ops(s *dvsim.Sim) []explore.Op {
 	}
 	if y.d.failFetch {
 		for a := 0; a < n; a++ {
-			if s.Nodes[a].Up && len(s.Parked(a, dvsim.KPfxData)) > 0 {
-				add(true, "Ft(%d)", a)
+			if s.Nodes[a].Up {
+				for _, d := range s.PfxTargets(a) {
+					add(true, "Ft(%d<%d)", a, d)
+				}
 			}
 		}
 	}
@@ -212,32 +225,34 @@ func applyOp(s *dvsim.Sim, nm string) {
 		fmt.Sscanf(nm, "Sy(%d)", &a)
 		s.PfxSync(a)
 	case strings.HasPrefix(nm, "Fs("):
-		fmt.Sscanf(nm, "Fs(%d)", &a)
-		s.PfxFetchStep(a, false)
+		fmt.Sscanf(nm, "Fs(%d<%d)", &a, &b)
+		s.PfxFetchStep(a, b, false)
 	case strings.HasPrefix(nm, "Ft("):
-		fmt.Sscanf(nm, "Ft(%d)", &a)
-		s.PfxFetchStep(a, true)
+		fmt.Sscanf(nm, "Ft(%d<%d)", &a, &b)
+		s.PfxFetchStep(a, b, true)
 	case strings.HasPrefix(nm, "X("):
 		fmt.Sscanf(nm, "X(%d<%d)", &a, &b)
 		s.Exchange(a, b)
 	case strings.HasPrefix(nm, "Fa("):
 		fmt.Sscanf(nm, "Fa(%d<%d)", &a, &b)
 		s.Alt[[2]int{a, b}] = true
-		s.Ping(a, b, true)
+		s.Ping(a, b, !s.Passive[[2]int{a, b}])
 	case strings.HasPrefix(nm, "Fb("):
 		fmt.Sscanf(nm, "Fb(%d<%d)", &a, &b)
 		delete(s.Alt, [2]int{a, b})
-		s.Ping(a, b, true)
-	case strings.HasPrefix(nm, "Fp("):
-		// a passive sync Interest of b reaches a over the face that is NOT the current one
-		fmt.Sscanf(nm, "Fp(%d<%d)", &a, &b)
+		s.Ping(a, b, !s.Passive[[2]int{a, b}])
+	case strings.HasPrefix(nm, "Fp("), strings.HasPrefix(nm, "Fx("):
+		// a passive (Fp) / active (Fx) sync Interest of b reaches a over the face that is NOT the
+		// one b's regular sync Interests arrive on
+		active := nm[1] == 'x'
+		fmt.Sscanf(nm[2:], "(%d<%d)", &a, &b)
 		was := s.Alt[[2]int{a, b}]
 		if was {
 			delete(s.Alt, [2]int{a, b})
 		} else {
 			s.Alt[[2]int{a, b}] = true
 		}
-		s.Ping(a, b, false)
+		s.Ping(a, b, active)
 		if was {
 			s.Alt[[2]int{a, b}] = true
 		} else {
@@ -293,6 +308,9 @@ func (y *sys) Apply(i any, op explore.Op) []report.Violation {
 	for _, p := range s.Problems {
 		v = append(v, report.Violation{Clause: "C19.quiesce", Key: strings.SplitN(p, " after ", 2)[0], Detail: p})
 	}
+	if len(y.m.Nondet) > 0 {
+		report.Fatal("C19 %s: %s", y.name, y.m.Nondet[0])
+	}
 	seen := map[string]bool{}
 	sn := s.Snap()
 	v = append(v, toViolations(sn.CheckMirror(), seen)...)
@@ -333,6 +351,9 @@ func main() {
 		ID: "C19", PanicClause: "C19.panic", Build: build,
 		Configs: func(th bool) []explore.Config {
 			var c []explore.Config
+			if only := os.Getenv("VERIF_C19_ONLY"); only != "" {
+				order = strings.Split(only, ";") // development aid
+			}
 			for _, n := range order {
 				d := defs[n]
 				depth := d.dq
@@ -344,6 +365,9 @@ func main() {
 			return c
 		},
 		Budget: func(th bool) time.Duration {
+			if v, err := time.ParseDuration(os.Getenv("VERIF_DV_BUDGET")); err == nil && v > 0 {
+				return v // development aid
+			}
 			if th {
 				return 25 * time.Minute
 			}
